@@ -50,7 +50,9 @@ func FetchCursor(ctx context.Context, scope *ReferenceScope, name parser.Identif
 }
 
 func DeclareView(ctx context.Context, scope *ReferenceScope, expr parser.ViewDeclaration) error {
-	if scope.TemporaryTableExists(expr.View.Literal) {
+	// Like variables, cursors and functions, a temporary table is redeclared only when the current block already has
+	// one of that name; a table declared in an enclosing block is shadowed until this block ends.
+	if scope.Blocks[0].TemporaryTables.Exists(strings.ToUpper(expr.View.Literal)) {
 		return NewTemporaryTableRedeclaredError(expr.View)
 	}
 
